@@ -289,16 +289,49 @@ def parse_obs(out):
     return res
 
 
+def run_recover(exe, lps, todo, tag, nobs=2, maxcrash=40, skip_lp_after_crash=False):
+    """todo: list of (k, runid, do-line) in execution order.  Runs them; when the harness dies, the first run without a complete
+    observation is recorded as crashed and the rest is run again.  Returns (observations, crashes)."""
+    O, crashes, skipped = {}, [], set()
+    rest = list(todo)
+    while rest:
+        txt, last = "", None
+        for (k, rid, do) in rest:
+            if k != last:
+                txt += lps[k].text(str(k)) + "\n"
+                last = k
+            txt += do + "\n"
+        rc, out, err = lpgen.run_harness(exe, txt, tag)
+        for cid, runs in parse_obs(out).items():
+            O.setdefault(cid, {}).update(runs)
+        if rc == 0:
+            break
+        idx = None
+        for i, (k, rid, do) in enumerate(rest):
+            if len(O.get(str(k), {}).get(rid, [])) < nobs:
+                idx = i
+                break
+        if idx is None:
+            crashes.append((None, None, None, rc, []))
+            break
+        k, rid, do = rest[idx]
+        crashes.append((k, rid, do, rc, O.get(str(k), {}).get(rid, [])))
+        rest = rest[idx + 1:]
+        if skip_lp_after_crash:
+            skipped.update((k2, rid2) for (k2, rid2, _) in rest if k2 == k)
+            rest = [x for x in rest if x[0] != k]
+        if len(crashes) >= maxcrash:
+            skipped.update((k2, rid2) for (k2, rid2, _) in rest)
+            break
+    return O, crashes, skipped
+
+
 def configs_for(r, tier, nrand):
     base = []
     for alg in (0, 1):
         for rep in (1, 2):
             for simp in (0, 1):
                 base.append({"algorithm": alg, "representation": rep, "simplifier": simp})
-    if tier == "quick":
-        # every LP gets 4 of the 8 combinations (balanced over the run) plus the all-default configuration
-        r.shuffle(base)
-        base = base[:4]
     cfgs = [{}] + base
     for _ in range(nrand):
         c = lpgen.rand_config(r)
@@ -317,7 +350,7 @@ def main():
     S = sc.Session(ck, exe1, model1)
     J = Judge(ck)
     r = ck.rng
-    nlp, nmax, nrand, nexact = (40, 15, 1, 40) if ck.tier == "quick" else (400, 25, 3, 400)
+    nlp, nmax, nrand, nexact = (60, 15, 1, 60) if ck.tier == "quick" else (1200, 25, 3, 600)
     lps = []
     if ck.args.replay:
         rp = json.load(open(ck.args.replay))
@@ -367,11 +400,10 @@ def main():
 
     # ---- phase 2: all limited solves
     plan = {}          # (k, c, runid) -> (family, parameter, do text)
-    txt = ""
+    todo, todo_exact = [], []
     mq = ""
     pred_ids = {}
     for k, p in enumerate(lps):
-        txt += p.text(str(k)) + "\n"
         cl = classes[k]
         for c, cfg in enumerate(cfgs[k]):
             u = (U.get(str(k), {}).get("c%d.u" % c) or [None])[0]
@@ -380,6 +412,14 @@ def main():
                 if u is not None and cl is not None and u["status"] not in ("ABORT_CYCLING", "SINGULAR", "OPTIMAL_UNSCALED_VIOLATIONS"):
                     J.viol("unlimited-no-verdict:%s" % u["status"], "the solve without any limit ends with %s under %s" % (u["status"], cfg), p, cfg, "unlimited", "", [u])
                 continue
+            if not J.verdict_ok(cl, u["status"]):
+                # a wrong verdict of the solve WITHOUT any limit is the subject of C01/C02 (e.g. the simplifier reports UNBOUNDED for an
+                # LP that is primal infeasible with an improving ray); it is recorded in the evidence and the pair is left out here
+                ck.count("reference-verdict-contradicts-class:%s-for-%s" % (u["status"], cl[0]))
+                ck.cov.setdefault("reference_verdicts_contradicting_class", [])
+                if len(ck.cov["reference_verdicts_contradicting_class"]) < 5:
+                    ck.cov["reference_verdicts_contradicting_class"].append({"lp": p.text("ref"), "config": cfg, "status": u["status"], "class": cl[0]})
+                continue
             ct = lpgen.cfg_text(cfg)
             N = int(u["iters"])
             L = int(u["lines"])
@@ -387,23 +427,23 @@ def main():
             ck.count("trace:%s" % ("parsed" if tr else "not-parsed"))
 
             def add(rid, fam, par, steps, pred=None):
-                nonlocal txt, mq
+                nonlocal mq
                 do = "DO c%d.%s %s" % (c, rid, steps)
-                txt += do + "\n"
+                todo.append((k, "c%d.%s" % (c, rid), do))
                 plan[(k, c, rid)] = (fam, par, do)
                 if pred is not None and tr is not None:
                     pid = "%d.%d.%s" % (k, c, rid)
                     mq += "T %s %s solves=%s\n" % (pid, pred, "/".join(tr[0]))
                     pred_ids[(k, c, rid)] = pid
             ks = list(range(0, N + 2))
-            if ck.tier == "quick" and len(ks) > 14:
-                ks = sorted(set(ks[:5] + ks[-5:] + r.sample(ks[5:-5], 4)))
+            if len(ks) > 40:
+                ks = sorted(set(ks[:12] + ks[-12:] + r.sample(ks[12:-12], 12)))
             for kk in ks:
                 add("k%d" % kk, "iter", kk, "new %s %s iterlimit=%d ; opt ; set iterlimit=-1 ; opt" % (TRACE, ct, kk),
                     "iterlimit=%d intr=-1 time0=0" % kk)
             js = list(range(0, L + 1))
-            if ck.tier == "quick" and len(js) > 12:
-                js = sorted(set(js[:4] + js[-3:] + r.sample(js[4:-3], 5)))
+            if len(js) > 40:
+                js = sorted(set(js[:12] + js[-12:] + r.sample(js[12:-12], 12)))
             for j in js:
                 ie = 0 if j == 0 else (tr[1][j - 1] if tr and j - 1 < len(tr[1]) else (len(tr[0][0]) if tr else 0))
                 add("j%d" % j, "intr", j, "new %s %s ; optint %d ; opt" % (TRACE, ct, j), "iterlimit=-1 intr=%d time0=0" % ie)
@@ -415,6 +455,8 @@ def main():
             uv = (U.get(str(k), {}).get("c%d.v" % c) or [None])[0]
             if uv is None or uv["status"] not in VERDICTS:
                 ck.count("unlimited-without-simplifier-not-solved:%s" % (uv["status"] if uv else "missing"))
+            elif not J.verdict_ok(cl, uv["status"]):
+                ck.count("reference-verdict-contradicts-class:%s-for-%s" % (uv["status"], cl[0]))
             elif cl is not None:
                 vstar = cl[1] if cl[0] == "optimal" else Fraction(r.randint(-20, 20))
                 d = max(Fraction(1), abs(vstar))
@@ -429,16 +471,31 @@ def main():
             xs = [("reflimit", 0), ("reflimit", 1), ("reflimit", 2), ("stallreflimit", 0), ("stallreflimit", 1), ("iterlimit", 0), ("iterlimit", 1), ("iterlimit", 3)]
             for xi, (par, val) in enumerate(xs):
                 do = "DO x%d new %s %s=%d ; opt ; set %s=-1 ; opt" % (xi, ex, par, val, par)
-                txt += do + "\n"
+                todo_exact.append((k, "x%d" % xi, do))
                 plan[(k, -1, "x%d" % xi)] = ("exact", (par, val), do)
             do = "DO x%d new %s timelimit=0 ; opt ; set timelimit=1e100 ; opt" % (len(xs), ex)
-            txt += do + "\n"
+            todo_exact.append((k, "x%d" % len(xs), do))
             plan[(k, -1, "x%d" % len(xs))] = ("exact", ("timelimit", 0), do)
-    rc, out, err = lpgen.run_harness(exe, txt, "C16-lim")
-    O = parse_obs(out)
-    if rc != 0:
-        done = sum(len(v) for v in O.values())
-        ck.violation("crash:limited", "the harness crashed (rc=%d) after %d runs: %s" % (rc, done, err[-300:]), {"kind": "crash"}, no_input=True)
+    O, crashes, skipped = run_recover(exe, lps, todo, "C16-lim")
+    OX, crashes_x, skipped_x = run_recover(exe, lps, todo_exact, "C16-exact", skip_lp_after_crash=True)
+    ck.count("runs-skipped-after-crash", len(skipped) + len(skipped_x))
+    for cid, runs in OX.items():
+        O.setdefault(cid, {}).update(runs)
+    rc = 0
+    crashed_runs = set(skipped) | set(skipped_x)
+    for (k, rid, do, crc, got) in crashes + crashes_x:
+        if k is None:
+            ck.violation("crash:harness", "the harness crashed (rc=%d) and the crashing run could not be identified" % crc, {"kind": "crash"}, no_input=True)
+            rc = crc
+            continue
+        crashed_runs.add((k, rid))
+        exact = rid.startswith("x")
+        c = -1 if exact else int(rid.split(".")[0][1:])
+        fam = plan[(k, c, rid if exact else rid.split(".", 1)[1])][0]
+        cl = classes[k]
+        J.viol("crash:%s:%s%s" % (fam, "first-solve" if not got else "re-solve", (":" + cl[0]) if (exact and cl) else ""),
+               "the solver crashed (rc=%d) in the %s of: %s  (LP class: %s)" % (crc, "limited solve" if not got else "re-solve after lifting the limit", do, cl[0] if cl else None),
+               lps[k], cfgs[k][c] if c >= 0 else {}, fam, do, got, {"kind": "crash", "rc": crc})
     # model predictions
     P = {}
     if mq:
@@ -470,7 +527,7 @@ def main():
         obs = O.get(str(k), {}).get("c%d.%s" % (c, rid), [])
         unl = U[str(k)]["c%d.%s" % (c, "v" if fam == "obj" else "u")][0]
         if len(obs) < 2:
-            if rc == 0:
+            if rc == 0 and (k, "c%d.%s" % (c, rid)) not in crashed_runs:
                 J.viol("missing-observation:%s" % fam, "no observation for %s" % do, p, cfg, fam, do, obs, no_input=True)
             continue
         o1, o2 = obs[0], obs[1]
@@ -480,6 +537,8 @@ def main():
         ck.count("config:%s" % cfg_key(cfg))
         expect = {"iter": "ABORT_ITER", "intr": "ABORT_TIME", "time": "ABORT_TIME", "obj": "ABORT_VALUE"}[fam]
         ok = J.limited(p, cfg, cl, fam, par, do, o1, o2, unl, expect)
+        if o1["status"] in ABORTS:
+            ck.count("stopped-after:%s:%s" % (fam, "0-iterations" if int(o1.get("iters", 0)) == 0 else "1+-iterations"))
         # family specific
         if fam == "intr" and o1["status"] == "ABORT_TIME" and o1.get("raised") != "1":
             ok = False
@@ -532,7 +591,7 @@ def main():
         p = lps[k]
         cl = classes[k]
         if len(obs) < 2:
-            if rc == 0:
+            if rc == 0 and (k, rid) not in crashed_runs:
                 J.viol("missing-observation:exact", "no observation for %s" % do, p, {}, "exact", do, obs, no_input=True)
             continue
         ck.evaluated((p.key(), "exact", str(par)), nontrivial=(p.n + p.m >= 3))
